@@ -71,8 +71,8 @@ func c12ServerName(r *rng.R) string {
 	return svc + ":" + method
 }
 
-func checkServerResponse(c *checker, how, full string, seq uint32, body *wv.V, services map[string]bool, resp []byte, err error) {
-	input := fmt.Sprintf("server %s name=%s seq=%d body=%s", how, hx([]byte(full)), seq, body.Text())
+func checkServerResponse(c *checker, how, full string, etype uint8, seq uint32, body *wv.V, services map[string]bool, resp []byte, err error) {
+	input := fmt.Sprintf("server %s type=%d name=%s seq=%d body=%s", how, etype, hx([]byte(full)), seq, body.Text())
 	if err != nil {
 		c.oracle("C12 server failed on a well-formed request", input, err.Error(), "Server.Handle must answer every well-formed Call with a Reply or an Exception envelope")
 		return
@@ -84,6 +84,22 @@ func checkServerResponse(c *checker, how, full string, seq uint32, body *wv.V, s
 	}
 	if e.Name != full || uint32(e.SeqID) != seq {
 		c.oracle("C12 server response does not echo name and sequence id", input, fmt.Sprintf("name=%s seq=%d", hx([]byte(e.Name)), uint32(e.SeqID)), "the response must carry the request's method name and sequence id")
+	}
+	if etype != 1 && etype != 4 {
+		// not a request: an Exception envelope carrying INVALID_MESSAGE_TYPE (2); no handler ran
+		c.rep.Hist("server-answer", "not a request")
+		got := fmt.Sprintf("type=%d", e.Type)
+		if v, verr := wv.FromWire(e.Value); verr == nil && e.Type == wire.Exception {
+			for _, f := range v.Fields {
+				if f.ID == 2 && f.V.T == wv.TI32 {
+					got = fmt.Sprintf("exception %d", f.V.U)
+				}
+			}
+		}
+		if got != "exception 2" {
+			c.oracle("C12 server ran or mis-answered an envelope that is not a request", input, got, "want a TApplicationException of type 2 (invalid message type): only Call and OneWay envelopes are requests")
+		}
+		return
 	}
 	// where the multiplexer cut the name, as the service saw it, against the model (splitColon;
 	// theorems multiplexed_method_intact / multiplex_cut_at_first_colon)
@@ -160,6 +176,13 @@ func runC12Server(c *checker, r *rng.R) {
 		full := c12ServerName(r)
 		seqs := []uint32{0, 1, 0x7fffffff, 0x80000000, 0xffffffff, uint32(r.U64())}
 		e := env{name: []byte(full), etype: 1, seqid: seqs[r.Intn(len(seqs))], body: wv.Gen(r, wv.TStruct, cfg(), 0)}
+		if r.Chance(1, 10) {
+			// an envelope that is not a request (Reply, Exception, an undefined type): the server
+			// must not run it (finding D92, repaired)
+			e.etype = uint8(r.Pick(2, 3, 0, 5, 127))
+		} else if r.Chance(1, 6) {
+			e.etype = 4 // OneWay is a request too
+		}
 		strict := r.Bool()
 		if len(e.name) == 0 {
 			strict = true // a legacy envelope cannot carry an empty name
@@ -171,7 +194,7 @@ func runC12Server(c *checker, r *rng.R) {
 		c.rep.Case("server "+enc, true)
 		c.rep.Hist("how", "envelope server / multiplexer")
 		resp, err := srv.Handle(unhx(enc[3:]))
-		checkServerResponse(c, "sequential", full, e.seqid, e.body, services, resp, err)
+		checkServerResponse(c, "sequential", full, e.etype, e.seqid, e.body, services, resp, err)
 		if err == nil {
 			retained = append(retained, kept{resp, append([]byte{}, resp...), fmt.Sprintf("server retained name=%s seq=%d", hx(e.name), e.seqid)})
 		}
@@ -220,7 +243,7 @@ func runC12Server(c *checker, r *rng.R) {
 				srv.Handle(unhx(implEncEnv(true, e2)[3:]))
 				mu.Lock()
 				c.rep.Hist("how", "envelope server shared by 8 goroutines")
-				checkServerResponse(c, "concurrent", full, e.seqid, e.body, services, held, err)
+				checkServerResponse(c, "concurrent", full, e.etype, e.seqid, e.body, services, held, err)
 				mu.Unlock()
 			}
 		}()
